@@ -265,6 +265,37 @@ def build(seed, kind, scope):
         st['record_params'] = st.get('record_params', 0) + 1
         for l2 in names:
             R(l2)
+    # whole arrays passed by reference (static, dynamic, arrays of records), handed on through 1-3 procedures: the last
+    # callee writes one element through the parameter and reads all of them
+    arrdecls = [d for d in decls if d['dims'] is not None]
+    for ai, d in enumerate(r.sample(arrdecls, min(2, len(arrdecls)))):
+        alocs = [(l, t_) for l, t_ in L.locations(d) if l in model]
+        if not alocs:
+            continue
+        tname = d['type'][1] if isinstance(d['type'], tuple) else TNAME[d['type']]
+        depth = r.choice([1, 2, 3])
+        pn = 'zpa'
+
+        def via(l_, _n=d['name']):
+            assert l_.startswith(_n)
+            return pn + l_[len(_n):]
+        tgt, tt = r.choice(alocs)
+        k[0] += 1
+        v = sentinel(tt, k[0])
+        model[tgt] = v
+        body_ = [f'{via(tgt)} = {lit(tt, v)}'] + [f'PRINT {via(l_)}' for l_, _ in alocs]
+        procs += [f'SUB zaw{ai} ({pn}() AS {tname})'] + body_ + ['END SUB']
+        for dd in range(2, depth + 1):
+            nxt = f'zaw{ai}' if dd == 2 else f'zaf{ai}x{dd - 1}'
+            procs += [f'SUB zaf{ai}x{dd} ({pn}() AS {tname})', f'DIM zpad{dd} AS LONG', f'zpad{dd} = {dd}', f'{nxt} {pn}()', 'END SUB']
+        entry = f'zaw{ai}' if depth == 1 else f'zaf{ai}x{depth}'
+        ops.append(f"{entry} {d['name']}()")
+        for l_, t_ in alocs:
+            exp.append((t_, model[l_], f'{l_} (inside zaw{ai}, depth {depth})'))
+        st['byref_writes'] += 1
+        st['array_params'] = st.get('array_params', 0) + 1
+        for l2 in names:
+            R(l2)
     body_decl_kw = {'main': 'DIM', 'shared': 'DIM SHARED', 'proc': 'DIM', 'static': 'STATIC', 'staticproc': 'DIM'}[scope]
     decl_lines = [L.decl_text(d, body_decl_kw) for d in decls]
     lines = L.type_defs() + ['DIM SHARED zdynz%', 'DIM SHARED zcalls%']
@@ -331,7 +362,7 @@ def gen_cases(tier, seed):
 def run_case(case):
     text, exp, rec_exp, nloc, st0, order = build(case['seed'], case['kind'], case['scope'])
     st = {'layouts': 1, 'locations': nloc, 'reads_compared': 0, 'byref_writes': st0['byref_writes'],
-          'record_params': st0.get('record_params', 0),
+          'record_params': st0.get('record_params', 0), 'array_params': st0.get('array_params', 0),
           'recursive_activations': st0['recursive_activations'], 'read_monitor_evaluations': 0, 'cell_writes_monitored': 0}
     viol = []
     cfg = tuple(case['cfg'])
